@@ -1,0 +1,28 @@
+//go:build verif
+
+// Contracts for package guardiand, checked by /verif (govc). Comment-only file: with the
+// verif tag off it is not part of the build, with it on it adds only this package clause.
+package guardiand
+
+// ---------------------------------------------------------------- re-observation dispatcher (C17)
+
+// The dispatcher is one goroutine: "for every sequence of requests and ticks" is the
+// invariant of its loop plus a contract on every iteration (old() = head of the iteration).
+//@ func handleReobservationRequests(ctx context.Context, clk clock.Clock, logger *zap.Logger, obsvReqC <-chan *gossipv1.ObservationRequest, chainObsvReqC map[vaa.ChainID]chan *gossipv1.ObservationRequest)
+//@   props C17
+//@   nonblocking
+//@   modifies *
+//@   replay guardiand_reobserve.go.tmpl
+//@   loop [for]:
+//@     invariant [cache-alive] cache != nil
+//@     iter-ensures [remember-only-if-sent] unchanged("chan") ==> (forall k in dom(cache) :: old(indom(cache, k)) && cache[k] == old(cache[k]))
+//@     iter-ensures [routing-table-untouched] mapUnchanged(chainObsvReqC)
+//@   at [channel <- req]:
+//@     assert [names-chain] r.chainId == req.ChainId
+//@     assert [routes-to-that-watcher] indom(chainObsvReqC, r.chainId) && channel == chainObsvReqC[r.chainId]
+//@     assert [not-in-window] !indom(cache, r)
+//@   loop [range cache]:
+//@     invariant [only-shrinks] forall k in dom(cache) :: atEntry(indom(cache, k)) && cache[k] == atEntry(cache[k])
+//@     invariant [rest-untouched] unchangedSinceEntry("chan") && mapUnchangedSinceEntry(chainObsvReqC)
+//@     iter-ensures [purge-iff-expired] indom(cache, r) <==> !(tns(now) - tns(t) > 660000000000)
+//@     iter-ensures [others-kept] mapUnchangedExcept(cache, r)
